@@ -18,6 +18,12 @@ abbrev QBlock := Bool × List Sym
 /-- what `PrenexNormalizer.walk` returns (`none` = `None`) -/
 abbrev PRes := Option (List QBlock × Term)
 
+/-- `dict((v, FreshSymbol(v.symbol_type())) for v in needs_rename)`: the `i`-th variable gets the
+fresh name number `k + i` -/
+def renFrom (fresh : Nat → String) : List Sym → Nat → List (Sym × Sym)
+  | [], _ => []
+  | v :: vs, k => (v, Sym.var (fresh k) v.ret) :: renFrom fresh vs (k + 1)
+
 /-- the loop over the quantifier blocks of one argument of `walk_conj_disj`; returns the
 blocks to append, the new reserved set, the (renamed) matrix and the supply counter -/
 def mergeBlocks (fresh : Nat → String) :
@@ -26,7 +32,7 @@ def mergeBlocks (fresh : Nat → String) :
   | (q, vs) :: rest, res, m, n =>
     let clash := vs.filter (fun v => res.contains v)
     let keep := vs.filter (fun v => !res.contains v)
-    let ren := clash.zipIdx.map (fun vi => (vi.1, Sym.var (fresh (n + vi.2)) vi.1.ret))
+    let ren := renFrom fresh clash n
     let m' := if clash.isEmpty then m
               else substT (ren.map (fun vw => (Term.sym vw.1, Term.sym vw.2))) m
     let new := keep ++ ren.map (·.2)
@@ -63,10 +69,11 @@ def allSome {α} : List (Option α) → Option (List α)
   | some a :: rest => (allSome rest).map (a :: ·)
   | none :: _ => none
 
-/-- first occurrences only (`set(formula.quantifier_vars())`) -/
+/-- `set(formula.quantifier_vars())`: one copy of every variable (the last occurrence is kept; the
+order inside a block is immaterial and not compared) -/
 def dedupSyms : List Sym → List Sym
   | [] => []
-  | x :: xs => x :: (dedupSyms xs).filter (fun y => y != x)
+  | x :: xs => if xs.contains x then dedupSyms xs else x :: dedupSyms xs
 
 /-- the blocks of a prefix bind … -/
 def boundOf (qs : List QBlock) : List Sym := (qs.map (·.2)).flatten
@@ -161,17 +168,20 @@ def quantInBoolPos : Term → Bool
       else (Term.node op args p).isQF
     | _ => (Term.node op args p).isQF
 
+/-- every symbol occurring in the term: free, bound, applied -/
+def allSyms : Term → List Sym
+  | .node _ args p =>
+    (match p with | .sym s => [s] | .qvars vs => vs | _ => []) ++ (args.map allSyms).flatten
+
 /-- duplicate-free list of bound variables -/
 def nodupB : List Sym → Bool
   | [] => true
   | x :: xs => !xs.contains x && nodupB xs
 
-/-- no binder of the term lists a variable twice (an assumption of `prenex_equiv_partial`) -/
-def nodupBinders : Term → Bool
+/-- every binder of the term binds plain (non-function) symbols -/
+def plainBinders : Term → Bool
   | .node _ args p =>
-    (args.map nodupBinders).all id && (match p with | .qvars vs => nodupB vs | _ => true)
-
-/-- the walk draws no fresh symbol: no bound variable clashes with a reserved one -/
-def noRename (fresh : Nat → String) (t : Term) : Bool := (prenexW fresh t 0).2 == 0
+    (args.map plainBinders).all id &&
+      (match p with | .qvars vs => vs.all (fun v => v.params.isEmpty) | _ => true)
 
 end PySMT.Rewritings
